@@ -597,7 +597,7 @@ func c15Classify(last, where, e, g string) string {
 	norm := func(l string) string {
 		f := strings.Fields(l)
 		for i, x := range f {
-			if len(x) == 40 && isHex(x) {
+			if (len(x) == 40 || len(x) == 64) && isHex(x) {
 				f[i] = "<hash>"
 			}
 			if strings.HasPrefix(x, "refs/") || x == "HEAD" {
